@@ -11,7 +11,7 @@ tie: H (hand-written executable Gallina model coq/C10/GeoEdit*.v of the mulgrid 
     the real object after every step, independently of the model, clause by clause; operations that promise a
     valid mesh are also checked for missing / extra connections and orphan nodes.
 """
-import os, sys, json, itertools, random, zlib, time, traceback, tempfile, shutil
+import os, sys, json, math, itertools, random, zlib, time, traceback, tempfile, shutil
 from collections import Counter
 import vf
 from props import c10_lib as L
@@ -50,6 +50,13 @@ def probe_fixbits():
     dropped = c1 not in c0.neighbour and c0 not in c1.neighbour
     g.add_connection(m.connection([c0, c1]))
     if dropped and c1 in c0.neighbour and c0 in c1.neighbour: bits |= 4
+    # proposed_fixes/C10-check-fix-name-index.diff: check(fix=True) sets up the connection name index again
+    g = m.mulgrid().rectangular([10., 20.], [10.], [5.])
+    g.delete_connection((a, b)); g.setup_block_connection_name_index()
+    g.check(fix=True, silent=True)
+    try:
+        if L.fresh_names(g)[2] == g.block_connection_name_list: bits |= 8
+    except Exception: pass
     return bits
 
 
@@ -171,7 +178,7 @@ class Outcome(object):
 
 STRUCTURAL = ('lookup', 'connection-keys', 'node-columns', 'column-connections', 'connection-nodes', 'polygon')
 READS_NEIGHBOURS = ('sp', 'dc')            # split_column and delete_column walk col.neighbour
-HELPERS = {'ss': ('name-lists',), 'tr': ('name-lists', 'neighbours', 'valid-mesh')}          # `col.surface = z; set_column_num_layers(col)` is a step of fit_surface / read_surface,
+HELPERS = {'ss': ('name-lists',), 'tr': ('valid-mesh',)}          # `col.surface = z; set_column_num_layers(col)` is a step of fit_surface / read_surface,
                                            # which refresh the name lists afterwards: not an edit of its own
 
 
@@ -250,7 +257,16 @@ def fs_ok(g):
 
 def fs_op(g, names, zfun, snap):
     """('fs', columns, data, layer_snap): one datum at the centre of every column"""
-    return ('fs', list(names), [(float(c.centre[0]), float(c.centre[1]), float(zfun(i, c))) for i, c in enumerate(g.columnlist)], float(snap))
+    op = ('fs', list(names), [(float(c.centre[0]), float(c.centre[1]), float(zfun(i, c))) for i, c in enumerate(g.columnlist)], float(snap))
+    # a singular least-squares system (degenerate columns) gives NaN elevations, which the model's rationals cannot carry:
+    # such a fit is not exercised
+    try:
+        import numpy as np
+        zs = g.fit_columns(np.array(op[2]), columns=list(names), silent=True)
+        if not all(math.isfinite(float(z)) for z in zs): return ('sn', 1.0, [])
+    except Exception:
+        return ('sn', 1.0, [])
+    return op
 
 
 def alphabet(g, n, level):
@@ -763,7 +779,8 @@ def run(ctx):
     exe = vf.build_driver(ctx)
     fixbits = probe_fixbits()
     ctx.extra['source_variant'] = {'rename_column_rekeys_connections': bool(fixbits & 1), 'split_column_repaired': bool(fixbits & 2),
-                                   'add_delete_connection_maintain_neighbours': bool(fixbits & 4)}
+                                   'add_delete_connection_maintain_neighbours': bool(fixbits & 4),
+                                   'check_fix_refreshes_connection_name_index': bool(fixbits & 8)}
     r22 = {'kind': 'rect', 'params': [2, 2, 3, 0, 0]}
     r32 = {'kind': 'rect', 'params': [3, 2, 2, 0, 1], 'surface': [None, -3., None]}
     r22b = {'kind': 'rect', 'params': [2, 2, 2, 3, 2]}
